@@ -4,6 +4,7 @@
    Parts:  bin    every operator on every ordered pair of operands (all shapes x value variants, scalars pool)
            pow    every 2 x 2 matrix over a small entry set x exponent pool x negative powers enabled / disabled
            chain  product chains of 2..4 operands (scalars, vectors, square matrices), '*' and '/', one optional group
+           lit    array literals as bracket trees (rectangular / ragged), behind the property: how operands are built
            scope  call histories: graders with negative powers disabled / enabled interleaved with direct operations
    Operands are carried in compact form  [sh |-> shape, e |-> << <<a, b, d>>, ... >>]  meaning (a + b i) / d. *)
 EXTENDS ArrayAlgebra
@@ -16,7 +17,8 @@ RealStreams == <<
   <<1, 1, 1, 1,   1, 1, 1, 1,   1, 1, 1, 1,   1, 1, 1, 1>>,             \* every matrix singular
   <<0, 0, 0, 0,   0, 0, 0, 0,   0, 0, 0, 0,   0, 0, 0, 0>>,             \* zero arrays are not the number 0
   <<1, -1, 0, 2,   2, 0, 1, -1,   0, 3, 1, 1,   -2, 1, 0, 1>>,
-  <<0, 1, 1, 0,   2, 1, 1, 1,   0, 2, 0, 1,   1, 0, 0, 3>> >>
+  <<0, 1, 1, 0,   2, 1, 1, 1,   0, 2, 0, 1,   1, 0, 0, 3>>,
+  <<2, 1, 3, 1,   0, 1, 3, 1,   4, 1, 1, 2,   0, 2, 1, 1>> >>          \* 3 x 3 prefix: third row = first + second
 CplxStreams == <<
   << <<1, 1>>, <<0, 1>>, <<2, 0>>, <<1, -1>>,   <<0, 0>>, <<1, 0>>, <<0, -1>>, <<1, 0>>,
      <<2, 1>>, <<0, 0>>, <<1, 0>>, <<0, 1>>,   <<1, 0>>, <<-1, 0>>, <<0, 2>>, <<1, 1>> >>,
@@ -78,12 +80,20 @@ AllowedFor(call, flagInside) ==
   ELSE IF call = "gd_shape" THEN "error"
   ELSE IF flagInside THEN "value" ELSE "error"
 
+\* ---- part lit: array literals as bracket trees, rectangular and ragged
+Num == [k |-> "num"]
+ArrOver(S, maxn) == {[k |-> "arr", xs |-> s] : s \in UNION {[1..n -> S] : n \in 1..maxn}}
+Lit1 == ArrOver({Num}, 3)
+Lit2 == ArrOver({Num} \cup Lit1, IF Big THEN 3 ELSE 2)
+Lit3 == ArrOver({Num} \cup {t \in Lit1 : Len(t.xs) <= 2} \cup {t \in Lit2 : Len(t.xs) <= 2}, 2)
+
 VARIABLES c, out
 
 Seeds ==
   IF Part = "bin" THEN {s \in [kind : {"seed"}, op : Ops, xsh : Shapes, neg : BOOLEAN] : s.neg \/ s.op = "^"}
   ELSE IF Part = "pow" THEN {[kind |-> "seed", r1 |-> r, neg |-> ng] : r \in PowRow, ng \in BOOLEAN}
   ELSE IF Part = "chain" THEN {[kind |-> "seed", n |-> n, ops |-> ops] : n \in ChainDims, ops \in UNION {OpPatterns(L) : L \in 2..4}}
+  ELSE IF Part = "lit" THEN {[kind |-> "seed", lvl |-> i] : i \in 1..3}
   ELSE {[kind |-> "scope", flag |-> TRUE, inside |-> "none", hist |-> <<>>]}
 
 Init == c \in Seeds /\ out = (IF Part = "scope" THEN <<>> ELSE [k |-> "seed"])
@@ -108,9 +118,12 @@ NextScope ==
   \/ /\ c.inside # "none"                                                         \* body, then exit on every path
      /\ c' = [c EXCEPT !.inside = "none", !.flag = TRUE, !.hist = Append(c.hist, c.inside)]
      /\ out' = Append(out, AllowedFor(c.inside, c.flag))
+NextLit == /\ c' \in [kind : {"lit"}, t : IF c.lvl = 1 THEN Lit1 ELSE IF c.lvl = 2 THEN Lit2 ELSE Lit3]
+           /\ out' = LitShape(c'.t)
 Next == IF Part = "scope" THEN NextScope
         ELSE /\ c.kind = "seed"
-             /\ IF Part = "bin" THEN NextBin ELSE IF Part = "pow" THEN NextPow ELSE NextChain
+             /\ IF Part = "bin" THEN NextBin ELSE IF Part = "pow" THEN NextPow
+                ELSE IF Part = "chain" THEN NextChain ELSE NextLit
 
 IsBin == c.kind = "bin"
 X == Ex(c.x)
@@ -132,6 +145,7 @@ InvPow2 == (c.kind = "pow") => LawPow(PowX, Ex(c.y), c.neg)
 InvChain == (c.kind = "chain") => LawChain(Tup([i \in 1..Len(c.xs) |-> Ex(c.xs[i])], Len(c.xs)), c.ops, TRUE)
 InvGroupFlat == (c.kind = "chain" /\ c.grp = <<0, 0>>) =>
                    SameOutcome(out, ChainProduct(Tup([i \in 1..Len(c.xs) |-> Val(Ex(c.xs[i]))], Len(c.xs)), c.ops, TRUE))
+InvLiteral == (c.kind = "lit") => (LawLiteral(c.t) /\ out.k \in {"sh", "ragged"})
 \* scope: between calls the switch is always at its default, whatever happened inside the calls
 InvScopeDefault == (c.kind = "scope" /\ c.inside = "none") => (c.flag = TRUE /\ Len(out) = Len(c.hist))
 InvScopeLocal == (c.kind = "scope") =>
